@@ -382,7 +382,7 @@ Section Driver.
     intros s1 [W [Hfc [Hprfc [Hpart Hjfc]]]].
     pose proof W as W0.
     destruct W as [Wg Wc Wh [Wo1 Wo2] Wa Ws Wu Wpo Wpc Wtg Wcb Wms Wt Wpl Wl Wr Wd].
-    unfold Model.step_rest. rewrite (geom_ok_true _ Wg). cbn [negb].
+    unfold Model.step_rest, Model.step_after_read. rewrite (geom_ok_true _ Wg). cbn [negb].
     pose proof (caps_bounds _ Wc) as Hcb.
     assert (Hsp : 0 <= space (buf s1)) by (destruct Wg as [? [? ?]]; unfold space; lia).
     destruct (read_n (space (buf s1)) s1) as [n sch'] eqn:R.
